@@ -107,6 +107,54 @@ theorem merge_comm (d : Nat) (d1 d2 o : Rec ℝ) :
     have h3 : d ≠ 3 := fun h => hd (Or.inr (Or.inr h))
     simp [merge_copy, merge_diffuse_copy, volume_from_radius_nd, Except.bind, h1, h2, h3]
 
+/-! ### vector positions
+
+The regenerated statement `out.position[...] = (V1 * drop1.position + V2 * drop2.position) / volume` acts on the position ARRAY; numpy applies it to
+every coordinate with the same scalars `V1`, `V2`, `volume`.  The merge of droplets with positions in `ι → ℝ` (any number of coordinates — the
+record's dimension and the dimension of the volume formula are the same `d` in the code, the theorem does not even need that) is therefore the
+regenerated scalar merge applied per coordinate, and the conservation laws hold for the position VECTOR. -/
+
+/-- the merged radius does not depend on the positions (so every coordinate of a vector merge carries the same radius) -/
+theorem merge_radius_indep (d : Nat) (d1 d2 o d1' d2' o' out out' : Rec ℝ) (hr1 : d1.radius = d1'.radius) (hr2 : d2.radius = d2'.radius)
+    (h : merge_copy d d1 d2 o = .ok out) (h' : merge_copy d d1' d2' o' = .ok out') : out.radius = out'.radius := by
+  simp only [merge_copy, ← hr1, ← hr2] at h h'
+  cases hv1 : volume_from_radius_nd d1.radius d with
+  | error e => simp [hv1, Except.bind] at h
+  | ok V1 =>
+    cases hv2 : volume_from_radius_nd d2.radius d with
+    | error e => simp [hv1, hv2, Except.bind] at h
+    | ok V2 =>
+      cases hr : radius_from_volume_nd (V1 + V2) d with
+      | error e => simp [hv1, hv2, hr, Except.bind] at h
+      | ok r =>
+        simp only [hv1, hv2, hr, Except.bind, Except.ok.injEq] at h h'
+        rw [← h, ← h']
+
+/-- **Merging conserves volume and the centre-of-mass VECTOR**: for positions with any index set of coordinates, dimension 1–3 and radii `≥ 0`
+there are ONE radius `r` and a position vector `P` such that the regenerated merge yields `(P k, r)` in every coordinate `k`, with
+`Vol r = Vol r₁ + Vol r₂` and `(Vol r₁ + Vol r₂) • P = Vol r₁ • p₁ + Vol r₂ • p₂` (no positivity needed in this form). -/
+theorem merge_vector_conserves {ι : Type} (d : Nat) (hd : Dim d) (p1 p2 : ι → ℝ) (r1 r2 w1 w2 : ℝ) (o : Rec ℝ)
+    (h1 : 0 ≤ r1) (h2 : 0 ≤ r2) (hpos : 0 < Vol d r1 + Vol d r2) :
+    ∃ (r : ℝ) (P : ι → ℝ), 0 ≤ r ∧ Vol d r = Vol d r1 + Vol d r2 ∧
+      (∀ k, merge_copy d ⟨p1 k, r1, w1⟩ ⟨p2 k, r2, w2⟩ o = .ok ⟨P k, r, o.width⟩) ∧
+      (∀ k, merge_diffuse_copy d ⟨p1 k, r1, w1⟩ ⟨p2 k, r2, w2⟩ o = .ok ⟨P k, r, (w1 + w2) / 2⟩) ∧
+      (Vol d r1 + Vol d r2) • P = Vol d r1 • p1 + Vol d r2 • p2 := by
+  have hv : 0 ≤ Vol d r1 + Vol d r2 := hpos.le
+  obtain ⟨r, hr, hr0, hrv⟩ := vol_rad d hd _ hv
+  refine ⟨r, fun k => (Vol d r1 * p1 k + Vol d r2 * p2 k) / (Vol d r1 + Vol d r2), hr0, hrv, ?_, ?_, ?_⟩
+  · intro k; simp [merge_copy, vol_nd_eq d hd, hr, Except.bind]
+  · intro k; simp [merge_diffuse_copy, vol_nd_eq d hd, hr, Except.bind]
+  · funext k
+    simp only [Pi.smul_apply, Pi.add_apply, smul_eq_mul]
+    field_simp
+
+/-- non-vacuity: two 3-D droplets with different positions and radii -/
+example : ∃ (r : ℝ) (P : Fin 3 → ℝ), Vol 3 r = Vol 3 1 + Vol 3 2 ∧
+    (Vol 3 1 + Vol 3 2) • P = Vol 3 1 • (![0, 1, -2] : Fin 3 → ℝ) + Vol 3 2 • ![3, 0, 5] := by
+  have hp : 0 < Vol 3 1 + Vol 3 2 := by simp [Vol]; positivity
+  obtain ⟨r, P, _, hv, _, _, hc⟩ := merge_vector_conserves 3 (Or.inr (Or.inr rfl)) ![0, 1, -2] ![3, 0, 5] 1 2 0 0 ⟨0, 0, 0⟩ (by norm_num) (by norm_num) hp
+  exact ⟨r, P, hv, hc⟩
+
 /-- a zero-radius right operand leaves radius and position unchanged (positive left volume) -/
 theorem merge_zero_right (d : Nat) (hd : Dim d) (d1 d2 o out : Rec ℝ)
     (h1 : 0 < d1.radius) (h2 : d2.radius = 0) (h : merge_copy d d1 d2 o = .ok out) :
